@@ -394,6 +394,60 @@ pub fn run(tier: Tier) -> i32 {
         }
     });
     st = st.merge(sd);
+    // numerals: zero padding, many digits, the i32 edges (the grammar is number = ["-"] 1*DIGIT)
+    {
+        let mut nums: Vec<String> = Vec::new();
+        for pad in [0usize, 1, 2, 9, 10, 11, 12, 20, 40] {
+            for body in ["0", "1", "2", "9", "10", "2147483647", "2147483648", "2147483646", "4294967296", "99999999999"] {
+                nums.push(format!("{}{}", "0".repeat(pad), body));
+                nums.push(format!("-{}{}", "0".repeat(pad), body));
+            }
+        }
+        nums.push("-2147483648".into());
+        nums.push("-2147483649".into());
+        for n in &nums {
+            for form in [format!("[{}]", n), format!("a[{}]", n), format!("a[{}:{}]", n, n), format!("a[::{}]", n), format!("a[{}:]", n), format!("[{}:{}:{}]", n, n, n)] {
+                st.states += 1;
+                st.transitions += 1;
+                decide(&form, ref_sentence(&form), "numerals", &mut st);
+            }
+        }
+    }
+    // nesting ladder: sentences of every nesting family must compile at any depth the stack allows
+    {
+        let h = std::thread::Builder::new()
+            .stack_size(1 << 30)
+            .spawn(move || {
+                let mut s = Stats::default();
+                for f in crate::checks::c05::FAMILIES {
+                    if *f == "literal-json" || f.starts_with("document") {
+                        continue; // JSON inside a literal is bounded by the JSON parser's own depth limit
+                    }
+                    for n in [2usize, 8, 64, 127, 128, 129, 255, 256, 257, 300, 512, 1000, 1024, 1025, 2048, 4096] {
+                        let (src, _) = crate::checks::c05::family_expr(f, n);
+                        s.states += 1;
+                        s.transitions += 1;
+                        s.evaluations += 1;
+                        s.validated += 1;
+                        s.nontrivial += 1;
+                        let ok = guarded(|| jmespath::compile(&src).map(|e| drop(e)).map_err(|e| format!("{:?}", e.reason)));
+                        match ok {
+                            Ok(Ok(())) => s.outcome("nested sentence accepted"),
+                            other => s.violate(Violation {
+                                key: format!("C03/false-reject/nesting/{}", f),
+                                check: "nesting-ladder".into(),
+                                case: json!({"kind": "nesting", "family": f, "n": n}),
+                                expected: "compiles (a sentence at any nesting depth)".into(),
+                                actual: crate::engine::trunc(&format!("{:?}", other), 200),
+                            }),
+                        }
+                    }
+                }
+                s
+            })
+            .unwrap();
+        st = st.merge(h.join().unwrap());
+    }
     // (c) character strings
     let k = tier.pick(5, 6);
     let mut stc0 = Stats::default();
@@ -437,6 +491,16 @@ pub fn run(tier: Tier) -> i32 {
 }
 
 pub fn replay(case: &Value) -> Option<(String, bool)> {
+    if case["kind"] == json!("nesting") {
+        let f = case["family"].as_str()?.to_string();
+        let n = case["n"].as_u64()? as usize;
+        let h = std::thread::Builder::new().stack_size(1 << 30).spawn(move || {
+            let (src, _) = crate::checks::c05::family_expr(&f, n);
+            guarded(|| jmespath::compile(&src).is_ok())
+        }).ok()?;
+        let r = h.join().ok()?;
+        return Some((format!("compiles: {:?}", r), r != Ok(true)));
+    }
     let s = case["expression"].as_str()?;
     let is_sentence = ref_sentence(s);
     let v = impl_verdict(s);
